@@ -55,6 +55,24 @@ Section Read.
   Local Notation DB := (bfs start (mj_dtree t)).
   Local Notation img := (map (mj_chunk dt s t DB) (mj_dir_positions t)).
 
+  (* in the extent of the directory at position p the first record is '.', with the extent and length
+     of that very extent; the second is '..', with the extent and length of the directory above
+     (removelast p; the root itself for the root) *)
+  Theorem mj_area_dot_dotdot p : mj_is_dir_at t p = true ->
+    exists r1 r2 rest,
+      mj_dir_recs dt s t DB p = r1 :: r2 :: rest /\
+      Codec.ident r1 = [0] /\ flags r1 = 2 /\
+      extent r1 = ms_ext_at DB p /\ data_len r1 = mj_dlen_at t p /\
+      Codec.ident r2 = [1] /\ flags r2 = 2 /\
+      mj_is_dir_at t (removelast p) = true /\
+      extent r2 = ms_ext_at DB (removelast p) /\ data_len r2 = mj_dlen_at t (removelast p).
+  Proof.
+    intros Hp. destruct (mj_is_dir_node _ _ Hp) as (nm & dl & kids & Hn).
+    rewrite (mj_dir_recs_eq dt Hdt s t start Hroot Hok Hstart Hend Hfext Hlen p nm dl kids Hn), (mj_dlen_at_dir _ _ _ _ _ Hn).
+    destruct (mj_parent_facts dt Hdt s t start Hroot Hok Hstart Hend Hfext Hlen p _ Hn) as (nm' & dl' & kids' & Hpar & Hdl').
+    do 3 eexists. split; [reflexivity|]. cbn [ms_rec Codec.ident flags extent data_len].
+    repeat split. unfold mj_is_dir_at. rewrite Hpar. reflexivity.
+  Qed.
   Variable img' : image.
   Hypothesis Hiok : ms_img_ok img'.
   Hypothesis Hincl : incl img img'.
@@ -114,24 +132,6 @@ Section Read.
     rewrite mj_view_dir, mj_root_extent. reflexivity.
   Qed.
 
-  (* in the extent of the directory at position p the first record is '.', with the extent and length
-     of that very extent; the second is '..', with the extent and length of the directory above
-     (removelast p; the root itself for the root) *)
-  Theorem mj_area_dot_dotdot p : mj_is_dir_at t p = true ->
-    exists r1 r2 rest,
-      mj_dir_recs dt s t DB p = r1 :: r2 :: rest /\
-      Codec.ident r1 = [0] /\ flags r1 = 2 /\
-      extent r1 = ms_ext_at DB p /\ data_len r1 = mj_dlen_at t p /\
-      Codec.ident r2 = [1] /\ flags r2 = 2 /\
-      mj_is_dir_at t (removelast p) = true /\
-      extent r2 = ms_ext_at DB (removelast p) /\ data_len r2 = mj_dlen_at t (removelast p).
-  Proof.
-    intros Hp. destruct (mj_is_dir_node _ _ Hp) as (nm & dl & kids & Hn).
-    rewrite (mj_dir_recs_eq dt Hdt s t start Hroot Hok Hstart Hend Hfext Hlen p nm dl kids Hn), (mj_dlen_at_dir _ _ _ _ _ Hn).
-    destruct (mj_parent_facts dt Hdt s t start Hroot Hok Hstart Hend Hfext Hlen p _ Hn) as (nm' & dl' & kids' & Hpar & Hdl').
-    do 3 eexists. split; [reflexivity|]. cbn [ms_rec Codec.ident flags extent data_len].
-    repeat split. unfold mj_is_dir_at. rewrite Hpar. reflexivity.
-  Qed.
 End Read.
 
 Print Assumptions mj_read_area.
